@@ -706,8 +706,67 @@ fn fixed(tier: Tier, emit: &mut dyn FnMut(&[u8])) {
     }
 }
 
+/// A generated redemption program (all node kinds, disconnect with branch, witnesses, sharing):
+/// the walk of the owned program (`Arc<RedeemNode>`) and of the borrowed one (`&RedeemNode`)
+/// have separate `DagLike` implementations and must agree item by item, for pointer sharing and
+/// identity-hash sharing; the pre-order walks must yield the same set.
+fn real_redeem_case(cx: &mut Case) -> CaseResult {
+    use crate::gen::build::*;
+    use crate::gen::values::ValBuilder;
+    use simplicity::dag::MaxSharing;
+    use simplicity::node::Redeem;
+    use std::sync::Arc;
+    cx.label("mode: generated redemption program (owned vs borrowed walk)");
+    let g = super::c01::gen_unit_program(cx, false, false);
+    let typed = type_check(&g.prog, true).map_err(|e| harness_error(format!("generated IR rejected: {:?}", e)))?;
+    let mut vb = ValBuilder::new();
+    vb.constructors_only = true;
+    let mut s = cx.src.clone();
+    let wit = gen_witnesses(&g.prog, &typed, &mut s, &mut vb);
+    cx.src = s;
+    let redeem = build_redeem(&g.prog, true, &wit.values).map_err(|e| harness_error(format!("pass 2: {:?}", e)))?;
+    g.prog.fingerprint(&mut cx.fp);
+    cx.nontrivial = g.prog.in_degrees().iter().any(|d| *d >= 2);
+    cx.label_if(g.prog.has("disconnect"), "redemption program has a disconnect with branch");
+    cx.set_sample(|| json!({"mode": "redeem program", "program": g.prog.render()}));
+    type Item = (usize, usize, Option<usize>, Option<usize>);
+    fn differ(what: &str, a: &[Item], b: &[Item], prog: &str) -> CaseResult {
+        if a != b {
+            let i = a.iter().zip(b.iter()).position(|(x, y)| x != y).unwrap_or(a.len().min(b.len()));
+            return Err(format!("{}: the walk of Arc<RedeemNode> and of &RedeemNode differ at item {} ({} vs {} items); program {}", what, i, a.len(), b.len(), prog));
+        }
+        Ok(())
+    }
+    let owned: Vec<Item> = Arc::clone(&redeem).post_order_iter::<InternalSharing>().map(|d| (d.index, Arc::as_ptr(&d.node) as usize, d.left_index, d.right_index)).collect();
+    let borrowed: Vec<Item> = redeem.as_ref().post_order_iter::<InternalSharing>().map(|d| (d.index, d.node as *const simplicity::RedeemNode as usize, d.left_index, d.right_index)).collect();
+    differ("post_order_iter::<InternalSharing>", &owned, &borrowed, &g.prog.render())?;
+    let owned: Vec<Item> = Arc::clone(&redeem).post_order_iter::<MaxSharing<Redeem>>().map(|d| (d.index, Arc::as_ptr(&d.node) as usize, d.left_index, d.right_index)).collect();
+    let borrowed: Vec<Item> = redeem.as_ref().post_order_iter::<MaxSharing<Redeem>>().map(|d| (d.index, d.node as *const simplicity::RedeemNode as usize, d.left_index, d.right_index)).collect();
+    differ("post_order_iter::<MaxSharing<Redeem>>", &owned, &borrowed, &g.prog.render())?;
+    // consecutive indices, children before parents and at the reported positions
+    for (i, it) in borrowed.iter().enumerate() {
+        if it.0 != i || it.2.map(|l| l >= i).unwrap_or(false) || it.3.map(|r| r >= i).unwrap_or(false) {
+            return Err(format!("post_order_iter::<MaxSharing<Redeem>> item {} has index {} and children at {:?}/{:?}", i, it.0, it.2, it.3));
+        }
+    }
+    let mut pre_owned: Vec<usize> = Arc::clone(&redeem).pre_order_iter::<InternalSharing>().map(|n| Arc::as_ptr(&n) as usize).collect();
+    let mut pre_borrowed: Vec<usize> = redeem.as_ref().pre_order_iter::<InternalSharing>().map(|n| n as *const simplicity::RedeemNode as usize).collect();
+    let mut post: Vec<usize> = redeem.as_ref().post_order_iter::<InternalSharing>().map(|d| d.node as *const simplicity::RedeemNode as usize).collect();
+    pre_owned.sort();
+    pre_borrowed.sort();
+    post.sort();
+    if pre_owned != post || pre_borrowed != post {
+        return Err(format!("pre-order and post-order walks of a redemption program yield different node sets ({} / {} / {}); program {}", pre_owned.len(), pre_borrowed.len(), post.len(), g.prog.render()));
+    }
+    Ok(())
+}
+
 pub fn case(cx: &mut Case) -> CaseResult {
-    let mode = cx.src.below(4);
+    // (byte 0 selects mode 0: the streams of the exhaustive enumeration are unaffected)
+    let mode = cx.src.below(5);
+    if mode == 4 {
+        return real_redeem_case(cx);
+    }
     let mut nodes: Vec<Sh> = vec![];
     let mut labels: Vec<u8> = vec![];
     if mode == 0 {
